@@ -2,6 +2,7 @@ package props
 
 import (
 	"fmt"
+	"sync"
 
 	col "github.com/craterdog/go-collection-framework/v4/collection"
 
@@ -44,11 +45,19 @@ func init() {
 	slD := seq.SliceDom(3)
 	anyI := seq.AnyDom(0, 12)
 	anyS := seq.AnyDom(1, 12)
+	// nested sets are built lazily inside the worker (no repository code at init)
 	mk := func(vs ...int) col.SetLike[int] { return col.Set[int](seq.Notation).MakeFromArray(vs) }
-	nestedPool := []col.SetLike[int]{mk(), mk(0), mk(1), mk(0, 1), mk(2), mk(0, 2), mk(0, 1, 2), mk(3), mk(1, 3)}
+	var poolOnce sync.Once
+	var nestedPool []col.SetLike[int]
+	pool := func() []col.SetLike[int] {
+		poolOnce.Do(func() {
+			nestedPool = []col.SetLike[int]{mk(), mk(0), mk(1), mk(0, 1), mk(2), mk(0, 2), mk(0, 1, 2), mk(3), mk(1, 3)}
+		})
+		return nestedPool
+	}
 	nd := seq.Dom[col.SetLike[int]]{
 		Name: "SetLike[int]",
-		Gen:  func(r *core.Rng) col.SetLike[int] { return nestedPool[r.Intn(len(nestedPool))] },
+		Gen:  func(r *core.Rng) col.SetLike[int] { return pool()[r.Intn(len(pool()))] },
 		Same: func(a, b col.SetLike[int]) bool { return a == b },
 		Less: func(a, b col.SetLike[int]) bool {
 			x, y := a.AsArray(), b.AsArray()
